@@ -88,7 +88,7 @@ def step : St2 → Side → Notif → St2 × List Notif
   | skipUntil al sk, .a, .complete => (skipUntil false sk, guard al [.complete])
   | skipUntil al _, .b, .next _ => (skipUntil al false, [])
   | skipUntil al sk, .b, .error _ => (skipUntil al sk, [])
-  | skipUntil al _, .b, .complete => (skipUntil al false, [])
+  | skipUntil al sk, .b, .complete => (skipUntil al sk, [])   -- after `fix: skip_until … notifier completion`
   -- sample: a = source, b = sampler ------------------------------------------
   | sample al _, .a, .next v => (sample al (some v), [])
   | sample al val, .a, .error e => (sample false val, guard al [.error e])
@@ -138,5 +138,24 @@ def Kind2.init : Kind2 → St2
   | .skipUntil => .skipUntil true true
   | .sample => .sample true none
   | .buffer => .buffer true []
+
+end Rx
+
+namespace Rx
+
+/-- A timeline: the merged sequence of the notifications of the two inputs. -/
+abbrev Timeline := List (Side × Notif)
+
+/-- Feed a whole timeline to a two-input cell. -/
+def St2.runT (s : St2) : Timeline → St2 × List Notif
+  | [] => (s, [])
+  | (sd, n) :: r =>
+    let (s1, o1) := s.step sd n
+    let (s2, o2) := St2.runT s1 r
+    (s2, o1 ++ o2)
+
+/-- The notifications of one input, in order. -/
+def Timeline.proj (sd : Side) (tl : Timeline) : List Notif :=
+  (tl.filter (fun p => p.1 == sd)).map (·.2)
 
 end Rx
